@@ -147,6 +147,12 @@ func genTopics(ch *Chooser, label string) []string {
 	if ch.Chance(1, 12, label+" duplicate topic") {
 		out = append(out, out[0]) // the same topic listed twice is still one match
 	}
+	if ch.Chance(1, 10, label+" odd topic name") {
+		// names that look like several of the usual ones glued together with a likely separator:
+		// a topic set is a set of strings, not of characters
+		odd := []string{"a\x1fb", "a,b", "a b", "ab", "a\x00b", "a|b", " ", "a\nb"}
+		out = append(out, odd[ch.Intn(len(odd), label+" odd topic")])
+	}
 	return out
 }
 
